@@ -6,7 +6,7 @@ From ExaV Require Import lib.ListX gen.Gen_ParseShape model.Model_Robust spec.Sp
 Import ListNotations.
 Open Scope Z_scope.
 
-Local Opaque PARSE_IS_RECURSIVE OVERRUN_STOPS.
+Local Opaque PARSE_IS_RECURSIVE OVERRUN_STOPS ADVISORY_ACCEPTS_BUFFER.
 
 (* ------------------------------------------------------------------ small facts *)
 
@@ -66,7 +66,7 @@ Proof.
 Qed.
 
 Lemma walk_f_overrun vdec fuel seen taw data f a l body :
-  hdr data = Some (f, a, l, body) -> OVERRUN_STOPS && (len body <? l) = true ->
+  hdr data = Some (f, a, l, body) -> OVERRUN_STOPS && (len (firstn (Z.to_nat l) body) <? l) = true ->
   walk_f vdec fuel seen taw data = stop (WOk seen true).
 Proof.
   intros Hh Ho. destruct data as [|x xs]; [discriminate|].
@@ -74,7 +74,7 @@ Proof.
 Qed.
 
 Lemma walk_f_step vdec k seen taw data f a l body :
-  hdr data = Some (f, a, l, body) -> OVERRUN_STOPS && (len body <? l) = false ->
+  hdr data = Some (f, a, l, body) -> OVERRUN_STOPS && (len (firstn (Z.to_nat l) body) <? l) = false ->
   walk_f vdec (S k) seen taw data =
   match act vdec seen taw f a l (firstn (Z.to_nat l) body) with
   | AStop o => stop o
@@ -86,7 +86,7 @@ Proof.
 Qed.
 
 Lemma walk_f_nofuel vdec seen taw data f a l body :
-  hdr data = Some (f, a, l, body) -> OVERRUN_STOPS && (len body <? l) = false ->
+  hdr data = Some (f, a, l, body) -> OVERRUN_STOPS && (len (firstn (Z.to_nat l) body) <? l) = false ->
   walk_f vdec O seen taw data = stop (WPyError K_FUEL).
 Proof.
   intros Hh Ho. destruct data as [|x xs]; [discriminate|].
@@ -108,7 +108,7 @@ Proof.
   destruct data as [|x xs]; [left; apply walk_f_nil|].
   destruct (hdr (x :: xs)) as [[[[f a] l] body]|] eqn:Hh.
   2: { right; left. apply walk_f_trunc; [discriminate | exact Hh]. }
-  destruct (OVERRUN_STOPS && (len body <? l)) eqn:Ho.
+  destruct (OVERRUN_STOPS && (len (firstn (Z.to_nat l) body) <? l)) eqn:Ho.
   { right; left. eapply walk_f_overrun; eauto. }
   right; right. exists f, a, l, body. split; [reflexivity|].
   destruct fuel as [|k].
@@ -280,8 +280,8 @@ Proof.
     rewrite app_length in Hfuel. pose proof (enc_attr_length a) as H3.
     destruct fuel as [|k]; [lia|].
     pose proof (hdr_enc a (enc_block l) Hwf) as Hh.
-    assert (Ho : OVERRUN_STOPS && (len (pa_value a ++ enc_block l) <? vlen a) = false).
-    { apply andb_false_intro2. apply Z.ltb_ge. rewrite len_app. unfold vlen, len. lia. }
+    assert (Ho : OVERRUN_STOPS && (len (firstn (Z.to_nat (vlen a)) (pa_value a ++ enc_block l)) <? vlen a) = false).
+    { apply andb_false_intro2. apply Z.ltb_ge. unfold vlen. rewrite Nat2Z.id, firstn_exact. unfold len. lia. }
     rewrite (walk_f_step vdec k seen taw _ _ _ _ _ Hh Ho).
     unfold vlen. rewrite Nat2Z.id, firstn_exact, skipn_exact.
     destruct (act_unknown vdec seen taw (pa_flags a) (pa_code a) (Z.of_nat (length (pa_value a))) (pa_value a) Hrow) as [s Hs].
@@ -619,12 +619,16 @@ Qed.
 Definition refresh_unknown_subtype (ty : Z) (b : bytes) : Prop :=
   ty = 5 /\ len b = 4 /\ nth 2 b 0 <> 0 /\ nth 2 b 0 <> 1 /\ nth 2 b 0 <> 2.
 
+(* an OPERATIONAL advisory (ADM / ASM) is decodable only when its constructor accepts the buffer slice it is handed *)
+Definition advisory_decodable (ty : Z) (b : bytes) : Prop :=
+  ADVISORY_ACCEPTS_BUFFER = true \/ ty <> 6 \/ op_category (rd16 b) <> 1.
+
 Lemma message_defined vdec capv ap limit ty b :
   vdec_contract vdec -> capv_contract capv -> enough_stack limit b ->
-  ~ refresh_unknown_subtype ty b ->
+  ~ refresh_unknown_subtype ty b -> advisory_decodable ty b ->
   outcome_defined (dec_message vdec capv ap limit ty b).
 Proof.
-  intros Hv Hc Hst Hrr. unfold dec_message.
+  intros Hv Hc Hst Hrr Hadv. unfold dec_message.
   destruct (ty =? 1).
   { unfold dec_open. destruct (open_walk_facts capv Hc b) as [O1 _].
     destruct (o_out (open_walk capv b)); [exact I | exact O1]. }
@@ -642,12 +646,28 @@ Proof.
     exfalso. apply Hrr. apply Z.eqb_eq in E5, E4.
     apply orb_false_elim in Er as [Er E2]. apply orb_false_elim in Er as [E0 E1].
     apply Z.eqb_neq in E0, E1, E2. repeat split; assumption. }
-  destruct (ty =? 6).
+  destruct (ty =? 6) eqn:E6.
   { unfold dec_operational.
-    repeat match goal with
-           | |- context [if ?x then _ else _] => destruct x
-           end; first [exact I | reflexivity]. }
+    destruct (len b <? 4); [reflexivity|].
+    destruct (len b <? rd16 (skipn 2 b) + 4); [reflexivity|].
+    match goal with |- context [if len b <? ?n then _ else _] => destruct (len b <? n) end; [reflexivity|].
+    destruct ((op_category (rd16 b) =? 1) && negb ADVISORY_ACCEPTS_BUFFER) eqn:Ea; [|exact I].
+    exfalso. apply andb_prop in Ea as [Ec Eb]. apply Z.eqb_eq in Ec, E6.
+    destruct Hadv as [Ht|[Hn|Hn]]; [rewrite Ht in Eb; discriminate Eb | exact (Hn E6) | exact (Hn Ec)]. }
   reflexivity.
+Qed.
+
+Lemma advisory_crash vdec capv ap limit : ADVISORY_ACCEPTS_BUFFER = false ->
+  dec_message vdec capv ap limit 6 [0; 1; 0; 3; 0; 1; 1] = PyError K_ATTRIBUTE.
+Proof.
+  intros H. unfold dec_message. change (6 =? 1) with false. change (6 =? 2) with false. change (6 =? 3) with false.
+  change (6 =? 4) with false. change (6 =? 5) with false. change (6 =? 6) with true. cbv iota.
+  unfold dec_operational.
+  change (len [0; 1; 0; 3; 0; 1; 1] <? 4) with false. cbv iota.
+  change (len [0; 1; 0; 3; 0; 1; 1] <? rd16 (skipn 2 [0; 1; 0; 3; 0; 1; 1]) + 4) with false. cbv iota.
+  change (op_category (rd16 [0; 1; 0; 3; 0; 1; 1])) with 1. change (1 =? 1) with true. cbv iota.
+  change (len [0; 1; 0; 3; 0; 1; 1] <? 7) with false. cbv iota.
+  rewrite H. reflexivity.
 Qed.
 
 (* the two refutations of the unrestricted statement *)
